@@ -21,7 +21,7 @@ def run_tdvp(repo, which, d, steps, dtype='complex', capped=False):
             return sc.call(f'{ODE}.tdvp1site', Hop, x, H, steps)
         mr = sc.atom('rho', free=True) if capped else math.inf
         if which == 'tdvp2site':
-            return sc.call(f'{ODE}.tdvp2site', Hop, x, H, steps, threshold=0, max_rank=mr)
+            return sc.call(f'{ODE}.tdvp2site', Hop, x, H, steps, threshold=1e-10 if capped else 0, max_rank=mr)
         return sc.call(f'{ODE}.tdvp', Hop, x, H, steps, threshold=0, max_rank=sc.atom('rho', free=True))
     return l2.explore(repo, body, max_paths=5000)
 
@@ -84,6 +84,7 @@ def check(repo, tier):
             scen = scen0
             pscen = scen0 + (f' [rank-test outcomes {"".join("T" if c else "F" for c in ch)}]' if ch else '')
             n_contr += l2rules.typing_obligations(run, 'C11', 'D1', repo, sc, scen, mods)
+            l2rules.relative_cut_obligations(run, 'C11', 'D1', repo, sc, scen, mods)
             if exc is not None:
                 run.oblige('D2', (entry, scen, 'raises', exc.exc_type, exc.where), False)
                 l2rules.raised_finding(run, 'C11', 'D2', repo, entry, scen, exc)
